@@ -6,7 +6,7 @@ from fractions import Fraction
 import core
 import corecheck
 import gen
-from common import build_bins, load_known
+from common import build_bins, load_known, run_model, Reader
 
 LISTED = {4, 5, 6, 7, 8, 10, 11, 12, 15, 16}   # rejection classes the property lists
 ZERO = Fraction(0)
@@ -56,6 +56,153 @@ def share_sim_oversale(rows_sorted, init_sh=None):
                 if core.split_int_only(*r["split"]) and bal[t].denominator != 1:
                     return "fraction"
     return None
+
+
+# ---- the declarative walk of Spec/Possible.v (extraction group "possible") ----
+OFFENCE_OF_REJ = {4: 4, 5: 4, 6: 6, 7: 7, 8: 8, 10: 10, 11: 11, 12: 12}   # rejection class -> offence class
+
+
+def parse_possible(ints):
+    """output of Exec/CodecPossible.dispatch -> {security number: verdict}"""
+    rd = Reader(ints)
+    if rd.z() != 1:
+        return None
+    secs = {}
+    for _ in range(rd.z()):
+        s, rstat, flag, cls, ng = rd.z(), rd.z(), rd.z(), rd.z(), rd.z()
+        groups = []
+        for _ in range(ng):
+            g = []
+            for _ in range(rd.z()):
+                act, af, denied, sh, aps = core.ACTS[rd.z()], rd.z(), rd.q(), rd.q(), rd.q()
+                g.append({"act": act, "af": af, "denied": denied, "amount": sh * aps})
+            groups.append(g)
+        secs[s] = {"rstat": rstat, "offence": (ng, cls) if flag else None, "groups": groups}
+    assert rd.done()
+    return secs
+
+
+def possible_corpus():
+    """hand-written boundary histories: one accepted (superficial loss shared by two buying
+    affiliates), one per rejection class, over-sales reported early by the look-ahead (alone, and
+    with another impossible transaction in between), a global split with an opening position"""
+    def row(day, act, sh=None, aps=None, af=None, sfl=None, split=None, sec="CRP"):
+        r = {"sec": sec, "td": core.BASE_DAY + day, "sd": core.BASE_DAY + day, "act": act,
+             "com": None, "cur": None, "rate": None, "af": af}
+        if sh is not None:
+            r["sh"] = core.D(sh)
+        if aps is not None:
+            r["aps"] = core.D(aps)
+        if sfl is not None:
+            r["sfl"] = (core.D(sfl[0]), sfl[1])
+        if split is not None:
+            r["split"] = split
+        return r
+    H = [
+        [row(90, "Buy", 20, 10, "Spouse"), row(100, "Buy", 10, 10), row(110, "Sell", 4, 5), row(112, "Buy", 3, 5, "Spouse"),
+         row(115, "Buy", 1, 5), row(120, "Sell", 3, 5), row(150, "RoC", None, 1)],
+        [row(10, "Buy", 10, 3), row(20, "Sell", 4, 5), row(30, "Sell", 7, 5)],
+        [row(10, "Buy", 10, 3), row(20, "RoC", None, 5)],
+        [row(10, "Buy", 10, 3, "(R)"), row(20, "RoC", None, 1, "(R)")],
+        [row(10, "Buy", 10, 3, "(R)"), row(20, "SfLA", 1, 1, "(R)")],
+        [row(10, "Buy", 10, 3), row(20, "Split", af="Default", split=("1", "3"))],
+        [row(10, "Buy", 10, 3), row(20, "Sell", 4, 5, sfl=(-1, False))],
+        [row(10, "Buy", 10, 10), row(20, "Sell", 4, 5, sfl=(-1, False))],
+        [row(10, "Buy", 10, 10), row(20, "Sell", 4, 5, sfl=(-1, True))],
+        [row(100, "Buy", 10, 10), row(110, "Sell", 4, 5), row(115, "Buy", 1, 5), row(120, "Sell", 8, 5)],
+        [row(90, "Buy", 20, 10, "Spouse"), row(100, "Buy", 10, 10), row(110, "Sell", 4, 5), row(115, "Buy", 1, 5), row(120, "Sell", 8, 5)],
+        [row(100, "Buy", 10, 10), row(110, "Sell", 4, 5), row(112, "RoC", None, 50), row(120, "Sell", 8, 5)],
+        [row(100, "Buy", 10, 10), row(110, "Sell", 4, 5), row(112, "Split", af="Default", split=("2", "1")), row(120, "Sell", 13, 5)],
+        [row(100, "Buy", 10, 10), row(110, "Sell", 4, 5), row(112, "Split", af="Default", split=("2", "1")), row(120, "Sell", 12, 5)],
+        [row(10, "Buy", 10, 3, "(R)"), row(20, "Sell", 4, 5, "(R)", sfl=(-1, False))],
+    ]
+    cases = [{"rows": h, "inits": {}} for h in H]
+    cases.append({"rows": [row(100, "Buy", 20, 10, "Spouse"), row(120, "Split", split=("2", "1")), row(130, "Sell", 10, 4, "Spouse")],
+                  "inits": {"CRP": (core.D(10), core.D(100))}})
+    return cases
+
+
+def possible_pass(r, poss, res, st, known_ids, known_hit):
+    """the implementation's accept/reject decision, rejection class, number of emitted rows and
+    the emitted rows' kind / affiliate / denied amount / adjustment amount against first_offence
+    and possible_rows evaluated by the extracted declarative walk (theorems
+    C04_rejection_matches_offence, C04_rejected_iff_offending, C04_accepted_iff_possible)"""
+    i, mx = r["impl"], r.get("exact")
+    if poss is None:
+        res.violation("broken-correspondence", "the extracted declarative walk did not evaluate the case",
+                      {"theorem_or_projection": "Exec/CodecPossible.dispatch", "input": r["hc"]}, found_input=False)
+        return
+    if i["status"] != "ok":
+        return
+    residue = nonterminating_split(r["case"])
+    tol = Fraction(1, 10 ** 6)
+    for s, so in i["secs"].items():
+        sname = corecheck.sec_name(r, s)
+        ps = poss.get(s)
+        if ps is None:
+            continue
+        xs = mx["secs"].get(s) if mx and "secs" in mx else None
+        if (mx and mx["status"] == "panic") or (xs is not None and xs["stop"][0] == 2):
+            st["possible-skipped-exact-panic"] += 1      # hypothesis of the theorems: no effective-cent panic
+            continue
+        rejected, cls = so["stop"][0] == 1, so["stop"][1]
+        nimpl = len(so["deltas"])
+        flat = [x for g in ps["groups"] for x in g]
+        cum = [0]
+        for g in ps["groups"]:
+            cum.append(cum[-1] + len(g))
+        off = ps["offence"]
+        bad = None
+        if ps["rstat"] == 1:
+            if not (rejected and cls == 17):
+                bad = "the global-split expansion rejects the security but the implementation %s" % (
+                    "rejects it with class %s" % core.REJ_NAMES.get(cls, cls) if rejected else "accepts it")
+        elif rejected and cls not in LISTED:
+            continue                                      # reported (or known) by the decision check above
+        elif not rejected:
+            if off is not None:
+                bad = "accepted, but input row %d is impossible (class %s)" % (off[0], core.REJ_NAMES.get(off[1], off[1]))
+            elif nimpl != len(flat):
+                bad = "accepted with %d rows, the declarative walk has %d effective rows" % (nimpl, len(flat))
+        elif off is None:
+            bad = "rejected (%s) although the history contains no impossible transaction" % core.REJ_NAMES.get(cls, cls)
+        elif cls in (15, 16):
+            st["possible-early-report"] += 1
+            ok = [k for k in range(off[0] + 1) if cum[k] == nimpl and (k == off[0] or ps["groups"][k][0]["act"] == "Sell")]
+            if not ok:
+                bad = "over-sale reported early with %d rows emitted: not the effective rows before a sale at or before the first impossible row %d (group sizes %s)" % (
+                    nimpl, off[0], [len(g) for g in ps["groups"]])
+        else:
+            if OFFENCE_OF_REJ[cls] != off[1]:
+                bad = "rejected as %s but the first impossible transaction (input row %d) is of class %s" % (
+                    core.REJ_NAMES.get(cls, cls), off[0], core.REJ_NAMES.get(off[1], off[1]))
+            elif nimpl != len(flat):
+                bad = "rejected (%s) after %d rows, but %d effective rows precede the first impossible transaction (input row %d)" % (
+                    core.REJ_NAMES.get(cls, cls), nimpl, len(flat), off[0])
+        if bad is None and ps["rstat"] == 0:
+            for k, d in enumerate(so["deltas"]):
+                if k >= len(flat):
+                    break
+                e = flat[k]
+                st["possible-rows-compared"] += 1
+                denied = d["sfl"][0] if d["sfl"] else ZERO
+                if d["act"] != e["act"] or d["af"] != e["af"]:
+                    bad = "emitted row %d is %s of affiliate %s, the declarative walk has %s of %s" % (k, d["act"], d["af"], e["act"], e["af"])
+                elif abs(denied - e["denied"]) > tol:
+                    bad = "emitted row %d: denied (superficial) amount %s, the declarative rule gives %s" % (k, denied, e["denied"])
+                elif d["act"] == "SfLA" and d["sfla"] is not None and abs(d["sfla"][0] * d["sfla"][1] - e["amount"]) > tol:
+                    bad = "emitted row %d: cost-base adjustment %s, the declarative rule gives %s" % (k, d["sfla"][0] * d["sfla"][1], e["amount"])
+                if bad:
+                    break
+        st["possible-compared"] += 1
+        if bad:
+            if residue and "split-residue" in known_ids:
+                known_hit["split-residue"] += 1
+            else:
+                res.violation("failing-input", "security %s: %s" % (sname, bad),
+                              {"input": r["hc"], "security": sname, "actual_impl": so.get("msg"),
+                               "expected_spec": "first_offence / possible_rows (Spec/Possible.v): offence %s, group sizes %s" % (
+                                   off, [len(g) for g in ps["groups"]])})
 
 
 def row_invariants(r, res):
@@ -112,6 +259,7 @@ def run(res, ctx):
         cases = []
         if first:
             first = False
+            cases += possible_corpus()      # hand-written boundary histories for the first_offence pass
             # crafted (regression of fix 397da52 and its neighbours): a loss sale, then a split, then the
             # sale of EXACTLY the whole position inside the 30-day look-ahead of the loss sale - valid,
             # whatever the ratio; and the same with one share too many - impossible
@@ -147,9 +295,11 @@ def run(res, ctx):
             cases.append(gen.gen_case(rng, p_invalid=rng.choice([0.0, 0.05, 0.3]),
                                       p_sfl_spec=rng.choice([0.0, 0.1]), p_roc=0.12, p_split=0.12))
         done += len(cases)
-        for r in corecheck.run_cases(ctx, cases, want_exact=True):
+        poss_raw = run_model([core.to_ints(c, 0)[0] for c in cases], group="possible")
+        for k, r in enumerate(corecheck.run_cases(ctx, cases, want_exact=True)):
             st["evaluations"] += 1
             i, md, mx = r["impl"], r["dec"], r["exact"]
+            possible_pass(r, parse_possible(poss_raw[k]), res, st, known_ids, known_hit)
             d = core.diff_exact(md, i)
             if d is not None:
                 corr.append((r, d))
@@ -322,8 +472,11 @@ def run(res, ctx):
         "visibility_cases": vis["cases"],
         "known_findings_replayed": dict(known_hit),
         "traces_validated_against_impl": st["evaluations"],
+        "first_offence_comparisons": st["possible-compared"],
+        "first_offence_rows_compared": st["possible-rows-compared"],
+        "first_offence_early_reports": st["possible-early-report"],
     })
     res.assumptions += [
-        "'rejected iff impossible' is decided by comparing the implementation's decision with the exact-arithmetic model and an independent exact share ledger, not by a theorem",
+        "'rejected iff impossible' is a theorem about the exact-arithmetic model (C04_rejection_matches_offence, C04_rejected_iff_offending, C04_accepted_iff_possible); the implementation (rust_decimal arithmetic) is compared on every generated case with the exact-arithmetic model, with first_offence / possible_rows of the extracted declarative walk and with an independent exact share ledger",
         "visibility is observed on the real binary / render model per mode; the writers (tabled, csv) are not modelled",
     ]
